@@ -151,6 +151,9 @@ theorem gdirty_setLoaded (s : Layer.State) (n : String) (r : Layer.GRec) (u : Op
   simp only [AL.get?_set]
   by_cases h : n = k <;> simp [h]
 
+theorem gdirty_withUni (s : Layer.State) (u : Option Layer.Cmap) (k : String) :
+    gdirty (Layer.withUni s u) k = gdirty s k := rfl
+
 theorem gdirty_forgetUni (s : Layer.State) (n : String) (us : List Nat) (k : String) :
     gdirty (Layer.forgetUni s n us) k = gdirty s k := rfl
 
@@ -178,7 +181,7 @@ theorem gdirty_getItem {s s' : Layer.State} {n : String} {r : Layer.GRec}
         · split at hl
           · simp at hl
           · simp only [Except.ok.injEq] at hl
-            rw [← hl, gdirty_insertGlyph]
+            rw [← hl, gdirty_withUni, gdirty_insertGlyph]
             split
             · rename_i e; subst e; exact (gdirty_of_none hnone).symm
             · rfl
@@ -219,7 +222,7 @@ theorem sched_getItem {s s' : Layer.State} {n : String} {r : Layer.GRec}
           · rename_i hns
             simp only [Except.ok.injEq] at hl
             rw [← hl]
-            unfold Layer.insertGlyph
+            unfold Layer.withUni Layer.insertGlyph
             simp only
             rw [List.filter_eq_self]
             intro a ha
@@ -244,17 +247,20 @@ theorem sched_touch {s s' : Layer.State} {n : String} (h : Layer.touch s n = .ok
     simp only [Except.ok.injEq] at h
     rw [← h]; exact (sched_getItem hg : s1.sched = s.sched)
 
-theorem gdirty_newGlyph {s s' : Layer.State} {n : String} (h : Layer.newGlyph s n = .ok s') (k : String) :
-    gdirty s' k = if n = k then true else gdirty s k := by
-  unfold Layer.newGlyph at h
+theorem gdirty_putGlyph {s s' : Layer.State} {n : String} {r : Layer.GRec} (h : Layer.putGlyph s n r = .ok s')
+    (k : String) : gdirty s' k = if n = k then true else gdirty s k := by
+  unfold Layer.putGlyph at h
   split at h
   · split at h
     · simp at h
-    · rename_i s1 r hg
+    · rename_i s1 r0 hg
       simp only [Except.ok.injEq] at h
       rw [← h, gdirty_insertGlyph, gdirty_forgetUni, gdirty_getItem hg]
   · simp only [Except.ok.injEq] at h
     rw [← h, gdirty_insertGlyph]
+
+theorem gdirty_newGlyph {s s' : Layer.State} {n : String} (h : Layer.newGlyph s n = .ok s') (k : String) :
+    gdirty s' k = if n = k then true else gdirty s k := gdirty_putGlyph h k
 
 theorem gdirty_deleteGlyph_ne {s s' : Layer.State} {n : String} (h : Layer.deleteGlyph s n = .ok s') (k : String)
     (hk : n ≠ k) : gdirty s' k = gdirty s k := by
@@ -290,11 +296,10 @@ theorem gdirty_rename {s s' : Layer.State} {o n : String} (h : Layer.rename s o 
       split at h
       · simp at h
       · rename_i s2 hd
-        simp only [Except.ok.injEq] at h
         refine ⟨fun e => absurd e hne, fun _ => ⟨?_, ?_⟩⟩
-        · rw [← h, gdirty_insertGlyph]; simp
+        · rw [gdirty_putGlyph h]; simp
         · intro k hok hnk
-          rw [← h, gdirty_insertGlyph, if_neg hnk, gdirty_forgetUni, gdirty_deleteGlyph_ne hd k hok,
+          rw [gdirty_putGlyph h, if_neg hnk, gdirty_forgetUni, gdirty_deleteGlyph_ne hd k hok,
             gdirty_getItem hg]
 
 /-- `Layer.save`: every loaded glyph is clean afterwards -/
